@@ -28,6 +28,7 @@ type Mode struct {
 	StaleWrites bool // other subsystems write status fields through their own (stale) handle
 	StripDLP    bool // sometimes strip the data-loss-protect fields
 	DurableRead bool // re-read LocalCommitment from the DB at every release (C06)
+	ForgedRev   bool // a revoke_and_ack may arrive with a secret that is not the peer's (C06)
 	MaxSteps    int
 	MaxHtlcs    int
 	// Hooks for other engines (C04/C05): called with the live sim.
@@ -77,6 +78,7 @@ type Sim struct {
 	lastSig     [2][]byte
 	forkNo      int
 	staleWrites int
+	forged      int
 	// concurrency probe: both sides had unacked work at once
 	concurrent bool
 }
